@@ -661,6 +661,16 @@ def coq_wgrid(case, o):
     return "f", "(%s, %s, [%s])" % (mw, wsm, "; ".join(cells))
 
 
+def safe_append(ctx, dest, what, fn, *args, extend=False):
+    """Build the Coq text of a case; an output that is neither the fill nor a finite number cannot be transmitted."""
+    try:
+        v = fn(*args)
+    except (ValueError, OverflowError) as e:
+        ctx.broken.append(("correspondence:" + what, "implementation output is neither the fill value nor a finite number (%s)" % e))
+        return
+    (dest.extend if extend else dest.append)(v)
+
+
 def shard(items, n):
     out = [[] for _ in range(n)]
     for i, it in enumerate(items):
@@ -748,7 +758,7 @@ def run(ctx):
         for key, what in fails:
             ctx.add_failure(key, what, {"oracle": "fornav", "case": case})
         if "error" not in o and "error" not in o["oneshot"] and "error" not in o["ws"]:
-            F.append(coq_fcase(case, o, tab or {}))
+            safe_append(ctx, F, "fornav_accumulate", coq_fcase, case, o, tab or {})
     D, DR, BL = [], [], []
     for case, o in zip(sc_cases, obs["scene"]):
         fails, info = judge_scene(case, o)
@@ -776,9 +786,9 @@ def run(ctx):
             continue
         fo = o["fornav"]
         if "error" not in fo["oneshot"] and "error" not in fo["ws"]:
-            F.append(coq_fcase(case, fo, tab or {}))
+            safe_append(ctx, F, "fornav_accumulate", coq_fcase, case, fo, tab or {})
         if o.get("sub"):
-            D.extend(coq_dcases(case, o))
+            safe_append(ctx, D, "dask_reduction", coq_dcases, case, o, extend=True)
         # placeholders decided by the ll2cr model; block layout
         R, C = len(case["lons"]), len(case["lons"][0])
         xs, ys = o["ll2cr"]["x"], o["ll2cr"]["y"]
@@ -817,7 +827,11 @@ def run(ctx):
         if "error" in o:
             ctx.broken.append(("correspondence:write_grid", "driver error %s" % o))
             continue
-        kind, txt = coq_wgrid(case, o)
+        try:
+            kind, txt = coq_wgrid(case, o)
+        except (ValueError, OverflowError) as e:
+            ctx.broken.append(("correspondence:write_grid", "output is neither the fill value nor a finite number (%s)" % e))
+            continue
         (WI if kind == "i" else WF).append(txt)
     if WF:
         texts.append(("c08_wfloat", HDR + "Definition cases : list (bool * Q * list (Q * Q * option Q)) := [%s].\nEval vm_compute in (bad chk_wfloat cases).\n" % ";\n".join(WF), WF, "write_grid_float"))
